@@ -45,6 +45,14 @@ def norm_rel(p, root_real, cwd):
     if not os.path.isabs(p):
         a = os.path.join(cwd, p)
         p = a if os.path.lexists(a) else os.path.join(root_real, p)
+    # only the spelling of the *root* is normalised away (it may be reached through a link); links inside the project are not
+    # resolved: which of two names of one file is reported is part of the result
+    ap = os.path.normpath(p)
+    for r in (root_real, os.path.join(os.path.dirname(root_real), "via_link")):
+        if ap == r:
+            return "."
+        if ap.startswith(r + os.sep):
+            return ap[len(r) + 1:]
     return os.path.relpath(os.path.realpath(p), root_real)
 
 
@@ -118,6 +126,14 @@ def run_case(case, ctx):
                                ("sub/e_none.py", "x = 5\n"), ("sub/f_lic_only.py", "# SPDX-License-Identifier: 0BSD\nx = 6\n"),
                                ("sub/g_cop_only.c", "// SPDX-FileCopyrightText: 2021 Other Partial\nint g;\n"), ("z_none.md", "last\n")):
                 (mix / name).write_text(text)
+        linked = k % 5 == 2
+        if linked:
+            # one licence text reachable under two names through a link inside LICENSES/: whatever the tool makes of that
+            # (today: a usage error), it must make the same of it in every run
+            (root / "LICENSES" / "texts").mkdir(parents=True, exist_ok=True)
+            (root / "LICENSES" / "texts" / "Zlib").write_text("zlib text\n")
+            (root / "LICENSES" / "texts" / "NotAnId.txt").write_text("text\n")
+            os.symlink("texts", root / "LICENSES" / "alias")
         if git:
             # a submodule (manual .gitmodules, as the repository's own tests do): excluded from whichever directory the tool is run
             (root / "vendor" / "lib").mkdir(parents=True)
@@ -181,10 +197,13 @@ def run_case(case, ctx):
         reference = {}
         for cmd in (["lint", "--json"], ["spdx"]):
             p, cwd, _ = one_run(base_cfg, cmd)
-            if p.returncode not in (0, 1) or b"VERIF-ESCAPED" in p.stderr:
+            if (p.returncode not in (0, 1) and not (linked and p.returncode == 2)) or b"VERIF-ESCAPED" in p.stderr:
                 res.violation("baseline-run-failed", f"baseline {' '.join(cmd)} exit {p.returncode}", stderr=p.stderr.decode(errors="replace")[-800:])
                 return res.out()
             out = p.stdout.decode("utf-8", "replace")
+            if p.returncode == 2:
+                reference[cmd[0]] = ({"usage-error": True}, 2)
+                continue
             reference[cmd[0]] = (norm_lint(out, root_real, cwd) if cmd[0] == "lint" else norm_spdx(out), p.returncode)
         configs = []
         cid = 0
@@ -205,6 +224,10 @@ def run_case(case, ctx):
                 continue
             res.n += 1
             desc = {kk: vv for kk, vv in cfg.items() if kk != "id"}
+            if p.returncode == 2 and reference[cmd[0]][1] == 2:
+                res.cell("usage-error-in-every-run")
+                res.sigs.add(short_hash(k, sorted(desc.items()), cmd, "usage"))
+                continue
             if b"VERIF-ESCAPED" in p.stderr or p.returncode not in (0, 1):
                 res.violation(f"run-failed:{cmd[0]}", f"`{' '.join(cmd)}` exit {p.returncode} under {desc}", stderr=p.stderr.decode(errors="replace")[-900:])
                 continue
@@ -215,6 +238,9 @@ def run_case(case, ctx):
                 res.violation("output-unparseable", f"{cmd[0]} under {desc}", out=out[:300])
                 continue
             ref, ref_rc = reference[cmd[0]]
+            if ref_rc == 2:
+                res.violation(f"{cmd[0]}-differs:usage-error-only-sometimes", f"`{' '.join(cmd)}` under {desc} exits {p.returncode}, the baseline run was a usage error")
+                continue
             if got != ref or p.returncode != ref_rc:
                 if cmd[0] == "lint":
                     dims = [kk for kk in ref if got.get(kk) != ref.get(kk)]
